@@ -201,6 +201,10 @@ def build_driver(outdir, tags="verif"):
     os.replace(tmp, os.path.join(HARNESS, "go.sum"))
     exe = os.path.join(outdir, "driver")
     cmd = ["go", "build", "-tags", tags, "-o", exe, "./cmd/driver"]
+    if os.environ.get("GOCOVERDIR"):   # development aid: which lines of the code under test do the drivers reach?
+        n = "github.com/containerd/nri/pkg/"
+        cmd[2:2] = ["-cover", "-coverpkg=./...," + ",".join(n + x for x in (
+            "adaptation", "api", "stub", "net", "net/multiplex", "runtime-tools/generate", "log"))]
     p = subprocess.run(cmd, cwd=HARNESS, env=GOENV, stdout=subprocess.PIPE, stderr=subprocess.STDOUT)
     if p.returncode != 0:
         raise ToolFailure("harness build failed:\n" + p.stdout.decode()[-4000:])
